@@ -171,3 +171,67 @@ Proof.
   - unfold widened_list, widened. apply map_ext. intros a. reflexivity.
   - apply map_ext. intros a. reflexivity.
 Qed.
+
+(* ---------- one PAD as two ---------- *)
+Lemma in_box_compose : forall lo1 lo2 hi2 n i,
+  Forall (fun v => 0 <= v) lo2 -> Forall (fun v => 0 <= v) hi2 ->
+  length lo1 = length n -> length lo2 = length n -> length hi2 = length n -> length i = length n ->
+  in_box lo1 (zadd (zadd n lo2) hi2) i && in_box lo2 n (zsub i lo1) = in_box (zadd lo1 lo2) n i.
+Proof.
+  induction lo1 as [|a lo1 IH]; intros lo2 hi2 n i H2 Hh L1 L2 Lh Li.
+  - destruct n; [|discriminate]. destruct lo2; [|discriminate]. destruct hi2; [|discriminate]. destruct i; [|discriminate].
+    reflexivity.
+  - destruct n as [|m n]; [discriminate|]. destruct lo2 as [|b lo2]; [discriminate|]. destruct hi2 as [|c hi2]; [discriminate|].
+    destruct i as [|j i]; [discriminate|].
+    inversion H2 as [|? ? Hb H2']; subst. inversion Hh as [|? ? Hc Hh']; subst.
+    cbn [in_box zadd zsub]. cbn [length] in *.
+    rewrite <- (IH lo2 hi2 n i H2' Hh') by lia.
+    destruct (in_box lo1 (zadd (zadd n lo2) hi2) i); destruct (in_box lo2 n (zsub i lo1));
+      cbn [andb]; rewrite ?andb_true_r, ?andb_false_r; try reflexivity; lia.
+Qed.
+
+Lemma zsub_zsub : forall i a b, length a = length i -> length b = length i -> zsub (zsub i a) b = zsub i (zadd a b).
+Proof.
+  induction i as [|j i IH]; intros a b La Lb.
+  - destruct a; [|discriminate]. destruct b; [|discriminate]. reflexivity.
+  - destruct a as [|x a]; [discriminate|]. destruct b as [|y b]; [discriminate|]. cbn [zsub zadd]. cbn [length] in *.
+    rewrite IH by lia. f_equal. lia.
+Qed.
+
+(* padding lo2 / hi2 first and lo1 afterwards is padding lo1 + lo2: for every rank, every extents, every index *)
+Theorem pad_twice_is_pad_once_lemma lo1 lo2 hi2 n x i :
+  Forall (fun v => 0 <= v) lo2 -> Forall (fun v => 0 <= v) hi2 ->
+  length lo1 = length n -> length lo2 = length n -> length hi2 = length n -> length i = length n ->
+  pad_nd lo1 (zadd (zadd n lo2) hi2) (pad_nd lo2 n x) i = pad_nd (zadd lo1 lo2) n x i.
+Proof.
+  intros H2 Hh L1 L2 Lh Li. unfold pad_nd.
+  rewrite <- (in_box_compose lo1 lo2 hi2 n i H2 Hh L1 L2 Lh Li).
+  destruct (in_box lo1 (zadd (zadd n lo2) hi2) i); cbn [andb]; [|reflexivity].
+  destruct (in_box lo2 n (zsub i lo1)); [|reflexivity].
+  rewrite zsub_zsub by lia. reflexivity.
+Qed.
+
+(* the split keeps one row and moves the others: the two matrices add up to the original one, the kept one pads the
+   batch or the channels only, the moved one does not pad that axis *)
+Definition madd (a b : list (Z * Z)) : list (Z * Z) :=
+  map (fun p => (fst (fst p) + fst (snd p), snd (fst p) + snd (snd p))) (combine a b).
+
+Theorem pad_split_sound_lemma m axis kept moved :
+  pad_split m = Some (axis, kept, moved) ->
+  madd kept moved = m /\ (axis = 0%nat \/ axis = 3%nat) /\
+  nth axis moved (0, 0) = (0, 0) /\ (forall a, a <> axis -> nth a kept (0, 0) = (0, 0)) /\
+  nth axis kept (0, 0) = nth axis m (0, 0).
+Proof.
+  unfold pad_split. destruct m as [|b [|h [|w [|c [|? ?]]]]]; try discriminate.
+  destruct (negb (negb (row_sum b =? 0) || negb (row_sum c =? 0)) || _); [discriminate|].
+  destruct b as [b0 b1], h as [h0 h1], w as [w0 w1], c as [c0 c1].
+  destruct (negb (row_sum (b0, b1) =? 0)); intros H; injection H as <- <- <-; cbn;
+    (split; [repeat f_equal; lia|]); (split; [auto|]); (split; [reflexivity|]); (split; [|reflexivity]);
+    intros a Ha; destruct a as [|[|[|[|a]]]]; try reflexivity; try (exfalso; apply Ha; reflexivity); destruct a; reflexivity.
+Qed.
+
+Example pad_split_example :
+  pad_split [(0, 0); (1, 1); (2, 1); (0, 4)] = Some (3%nat, [(0, 0); (0, 0); (0, 0); (0, 4)], [(0, 0); (1, 1); (2, 1); (0, 0)]).
+Proof. vm_compute. reflexivity. Qed.
+Example pad_split_spatial_only : pad_split [(0, 0); (1, 1); (2, 1); (0, 0)] = None.
+Proof. vm_compute. reflexivity. Qed.
